@@ -40,6 +40,20 @@ def mark_src(mark):
     raise ValueError(k)
 
 
+def tags_src(mode, style=None):
+    """Source of the tags tuple of an execution mode; style 'str': the tags are spelled as plain strings (NodeTag is a
+    str-enum, `('process',)` is the same declaration as `(NodeTag.process,)`)."""
+    if mode in ('inline', 'async_tagged'):
+        return "('non_async',)" if style == 'str' else '(NodeTag.non_async,)'     # async_tagged: a coroutine ignores the tag
+    if mode == 'process':
+        return "('process',)" if style == 'str' else '(NodeTag.process,)'
+    if mode == 'thread_tag':
+        return "('thread',)" if style == 'str' else '(NodeTag.thread,)'
+    if mode == 'custom_tag':
+        return "('io_bound',)"
+    return None
+
+
 def node_src(n):
     """Source of one node class.  Naming: n['nm'] = 'id' (name = IR id, default) | 'none' (no name
     attribute: engine id derives from module + class) | ['custom', value]."""
@@ -66,14 +80,11 @@ def node_src(n):
     if n.get('verbose_name'):
         lines.append(f'    verbose_name = {n["verbose_name"]!r}')
     mode = n.get('mode', 'thread')
-    if mode in ('inline', 'async_tagged'):
-        lines.append('    tags = (NodeTag.non_async,)')     # async_tagged: a coroutine ignores the tag
-    elif mode == 'process':
-        lines.append('    tags = (NodeTag.process,)')
-    elif mode == 'thread_tag':
-        lines.append('    tags = (NodeTag.thread,)')
-    elif mode == 'custom_tag':
-        lines.append("    tags = ('io_bound',)")
+    if n.get('attrs_tags_base') and mode not in ('async', 'async_tagged'):
+        mode = 'thread'     # the execution mode is overridden by build_node(attrs={'tags': ...}) on the derived node
+    tl = tags_src(mode, n.get('tag_style'))
+    if tl is not None:
+        lines.append(f'    tags = {tl}')
     elif n.get('explicit_tags'):
         lines.append('    tags = ()')
     r = n.get('retry')
@@ -142,6 +153,9 @@ def generic_src(n):
         args.insert(1, f'node_name={nid!r}')
     if n.get('dep_default'):
         args.append(f"dependencies_default=dict(dd=('DD', {nid!r}))")
+    if n.get('attrs_tags'):
+        # the derived node overrides the execution mode of the generic base class
+        args.append('attrs={' + repr('tags') + ': ' + (tags_src(n.get('mode', 'thread'), n.get('tag_style')) or '()') + '}')
     if deps:
         args.append(deps)
     if n.get('start_of') and not n.get('no_additional_data'):
